@@ -1,0 +1,45 @@
+//go:build verif
+
+package badger
+
+// Exports for the C38 (no deadlock) harness: a racy but memory-safe snapshot of the counters
+// that make up the blocking structure (channel lengths are read with len(), which is atomic
+// per channel; the fields are NOT read atomically with respect to one another).
+
+// VerifBlocking is one snapshot of the blocking structure.
+type VerifBlocking struct {
+	WriteCh      int // len(db.writeCh)
+	WriteChCap   int // cap(db.writeCh) (kvWriteChCapacity)
+	FlushCh      int // len(db.flushChan)
+	FlushChCap   int // cap(db.flushChan) (NumMemtables)
+	Imm          int // len(db.imm) (read under db.lock.RLock)
+	L0           int // number of level-0 tables
+	L0Compact    int // NumLevelZeroTables
+	L0Stall      int // NumLevelZeroTablesStall
+	BlockWrites  bool
+	IsClosed     bool
+	NumCompactor int
+	PubCh        int // len(db.pub.pubCh)
+}
+
+// VerifBlockingSnapshotNoLock reads the counters without taking any lock, so that it can be
+// called from a watchdog while the DB is wedged (word-sized racy reads of slice lengths and of
+// the flushChan field; never dereferences the data).
+func (db *DB) VerifBlockingSnapshotNoLock() VerifBlocking {
+	var s VerifBlocking
+	s.WriteCh, s.WriteChCap = len(db.writeCh), cap(db.writeCh)
+	fc := db.flushChan
+	s.FlushCh, s.FlushChCap = len(fc), cap(fc)
+	s.Imm = len(db.imm)
+	s.L0 = len(db.lc.levels[0].tables)
+	s.L0Compact = db.opt.NumLevelZeroTables
+	s.L0Stall = db.opt.NumLevelZeroTablesStall
+	s.BlockWrites = db.blockWrites.Load() == 1
+	s.IsClosed = db.isClosed.Load() == 1
+	s.NumCompactor = db.opt.NumCompactors
+	s.PubCh = len(db.pub.pubCh)
+	return s
+}
+
+// VerifKvWriteChCapacity is the capacity constant of db.writeCh.
+const VerifKvWriteChCapacity = kvWriteChCapacity
